@@ -90,7 +90,7 @@ def table(ctx, spec, mod, funcs, live, stub, strat, text, src):
                     return ctx.fail("C13/annotation-invented", spec, f"{where} {name}: {entry[0]} [{strat.name}]\n{src}\n{text}")
                 elif src_anno is not None and entry is not None:
                     expect(name, entry, with_default(src_anno), "ignore-untraced-keeps-source")
-        if strat == EAS.OMIT and f.get("recv_anno") and f["where"] in ("method", "inner", "deep", "genmethod", "asyncmethod", "property") and "self" in info["args"]:
+        if strat == EAS.OMIT and f.get("recv_anno") and f["where"] in ("method", "inner", "deep", "genmethod", "asyncmethod", "property", "subproperty") and "self" in info["args"]:
             return ctx.fail("C13/omit-kept-source-annotation", spec, f"{where} self: {info['args']['self'][0]}\n{src}\n{text}")
         for v in (f["varargs"], f["varkw"]):
             if v and v in info["args"] and v not in at:
